@@ -9,7 +9,7 @@ if not os.path.isdir(WT):
 sh(f'git -C {WT} checkout -q --detach $(git -C /repo rev-parse HEAD) && git -C {WT} checkout -- .')
 M = [
  # id, property, file, old, new, description
- ("C01-1","C01","src/duration/ops.rs",".saturating_div((q * Unit::Nanosecond).total_nanoseconds()),",".div_euclid((q * Unit::Nanosecond).total_nanoseconds()),","Duration / i64 rounds toward minus infinity instead of truncating toward zero (negative, inexact quotients only)"),
+ ("C01-1","C01","src/duration/ops.rs","self.total_nanoseconds().saturating_div(divisor))","self.total_nanoseconds().div_euclid(divisor))","Duration / i64 rounds toward minus infinity instead of truncating toward zero (negative, inexact quotients only)"),
  ("C01-2","C01","src/duration/ops.rs","== i32::from(i16::MIN) - 1","<= i32::from(i16::MIN) - 1","Add: the 'carry brings the sum back in range' rescue also fires when the century sum is below -32769 (returns a value instead of MIN)"),
  ("C01-3","C01","src/duration/ops.rs","Self::from_parts(-1 - self.centuries, nanoseconds)","Self::from_parts(-self.centuries - 1, nanoseconds)","Neg: regression of the overflow fix in the most negative century"),
  ("C02-1","C02","src/timeunits.rs","Unit::Week => NANOSECONDS_PER_DAY as i64 * DAYS_PER_WEEK_I64,","Unit::Week => NANOSECONDS_PER_DAY as i64 * (DAYS_PER_WEEK_I64 - 1),","integer weeks are 6 days long (the float factor table is untouched)"),
